@@ -236,6 +236,22 @@ def check_priority(items, ctx=None):
             first = conv
             file_variants(Converter.from_priority_prefix_map, data, conv, fails, where, "from_priority_prefix_map", ctx)
             check_kwargs(Converter.from_priority_prefix_map, data, model, fails, where, "from_priority_prefix_map")
+            # the extended-prefix-map loader takes Record objects too - also ones that lived in a converter and gained their
+            # synonyms there, by merges, after having been created without any
+            live = Converter([])
+            for r in model.records:
+                live.add_record(curies.Record(prefix=r.prefix, uri_prefix=r.uri_prefix))
+            for r in model.records:
+                for u in r.usyn:
+                    live.add_record(curies.Record(prefix=r.prefix, uri_prefix=u), merge=True)
+            for shape, recs_ in (("records-of-a-live-converter", live.records), ("generator-over-live-records", (r for r in live.records))):
+                try:
+                    c5 = Converter.from_extended_prefix_map(recs_)
+                except Exception as e:  # noqa
+                    fails.append((f"from_extended_prefix_map/raises/{shape}", f"{where}: {type(e).__name__}: {e}"))
+                    continue
+                if record_set(c5) != model.record_set():
+                    fails.append((f"from_extended_prefix_map/records-differ-from-denotation/{shape}", f"{where}: given the records of a converter that reached this content through merges, the result has {sorted(map(repr, record_set(c5)))}"))
         if ctx is not None:
             ctx.count("transitions")
             ctx.state(hash(canon(conv)))
@@ -421,6 +437,13 @@ def check_rdflib(subset, ctx=None):
             for p, u in perm:
                 if conv.expand(p + ":1") != u + "1" or conv.compress(u + "1") != p + ":1":
                     fails.append((f"from_rdflib/binding-does-not-round-trip/{what}", f"{where}: prefix {p!r}: expand -> {conv.expand(p + ':1')!r}, compress -> {conv.compress(u + '1')!r}"))
+            # what a loaded converter learns later is its own business: later loads of the same bindings are not affected
+            try:
+                for k_, (p, u) in enumerate(perm):
+                    conv.add_record(curies.Record(prefix=f"zs{k_}", uri_prefix=u), merge=True)
+                    conv.add_record(curies.Record(prefix=p, uri_prefix=u + "zs/"), merge=True)
+            except Exception as e:  # noqa
+                fails.append((f"from_rdflib/loaded-converter-cannot-be-extended/{what}", f"{where}: {type(e).__name__}: {e}"))
             if ctx is not None:
                 ctx.count("transitions")
                 ctx.count("rdflib_loads")
